@@ -163,27 +163,24 @@ theorem loop_iter (hc : Contract c) (hk : Checked c sh σ1 σ0 H σb) {it : Nat}
   have hdec : (c.cnt - it + M64 - 1) % M64 = c.cnt - it - 1 := by
     have : c.cnt - it + M64 - 1 = (c.cnt - it - 1) + M64 := by omega
     rw [this, Nat.add_mod_right, Nat.mod_eq_of_lt]; unfold M64 at *; omega
-  let s3 : State := (setGp s2 sh.rc (.num (c.cnt - it - 1))).setZf ((c.cnt - it - 1) == 0)
+  let s3 : State := setFlags (setGp s2 sh.rc (.num (c.cnt - it - 1))) (some ((c.cnt - it - 1) == 0)) s2.cf
   have hst3 : stepInstr c.env (.decq sh.rc) s2 = some s3 := by
     simp only [stepInstr, hg, hdec]; rfl
   have hs3 := step_at_plain sh.asm5 hpc2 rfl hst3
   have hsim3 : Sim c it (σb.setGp sh.rc (.ctr 1)) s3 :=
-    (hsim2.setGp sh.rc (g := .ctr 1) (v := .num (c.cnt - it - 1)) rfl).withZf _
+    (hsim2.setGp sh.rc (g := .ctr 1) (v := .num (c.cnt - it - 1)) rfl).setFlags _ _
   have hsim4 := stepOK_sound hk.stepok hk.clampG hk.clampV hk.hst hk.cov hsim3
   -- JNZ
-  have hs4 := step_at_jnz (env := c.env) (s := s3.setPc (sh.A5.length + 1)) sh.asm6 (by simp [State.setPc, Shape.len6])
+  have hs4 := step_at_jnz (env := c.env) (s := s3.setPc (sh.A5.length + 1)) (b := (c.cnt - it - 1) == 0) sh.asm6
+    (by simp [State.setPc, Shape.len6]) rfl
   have hcount : sh.body.length + 3 = 1 + sh.body.length + 1 + 1 := by omega
   rw [hcount]
   by_cases hlast : it + 1 < c.cnt
-  · have hz : (s3.setPc (sh.A5.length + 1)).zf = false := by
-      show ((c.cnt - it - 1) == 0) = false
-      simp; omega
+  · have hz : ((c.cnt - it - 1) == 0) = false := by simp; omega
     rw [hz, if_neg (by simp), jump_eq (findLoop hk)] at hs4
     exact ⟨_, run_trans (run_trans (run_trans (run_one hs1) hrun2) (run_one hs3)) (run_one hs4),
       (hsim4.withPc _).withPc _, by simp [hlast, State.setPc]⟩
-  · have hz : (s3.setPc (sh.A5.length + 1)).zf = true := by
-      show ((c.cnt - it - 1) == 0) = true
-      simp; omega
+  · have hz : ((c.cnt - it - 1) == 0) = true := by simp; omega
     rw [hz, if_pos rfl] at hs4
     exact ⟨_, run_trans (run_trans (run_trans (run_one hs1) hrun2) (run_one hs3)) (run_one hs4),
       (hsim4.withPc _).withPc _, by simp [hlast, State.setPc, Shape.len7]⟩
@@ -241,22 +238,20 @@ theorem checked_sound {c : Ctx} {sh : Shape} {σ1 σ0 H σb : SymState} (hc : Co
   have hg := hsim1.gp sh.rt
   rw [hk.rt] at hg
   simp only [GRefines] at hg
-  have hst2 : stepInstr c.env (.testq sh.rt sh.rt) s1 = some (s1.setZf (c.cnt == 0)) := by
-    simp only [stepInstr, hg, Nat.and_self]; rfl
+  have hst2 : stepInstr c.env (.testq sh.rt sh.rt) s1 = some (setFlags s1 (some (c.cnt == 0)) (some false)) := by
+    simp only [stepInstr, hg, Nat.and_self]
   have hs2 := step_at_plain sh.asm0 hpc1 rfl hst2
-  have hsim2 : Sim c 0 σ1 ((s1.setZf (c.cnt == 0)).setPc (sh.pre1.length + 1)) := (hsim1.withZf _).withPc _
-  have hs3 := step_at_jz (env := c.env) (s := (s1.setZf (c.cnt == 0)).setPc (sh.pre1.length + 1)) sh.asm1
-    (by simp [State.setPc, Shape.len1])
+  have hsim2 : Sim c 0 σ1 ((setFlags s1 (some (c.cnt == 0)) (some false)).setPc (sh.pre1.length + 1)) := (hsim1.setFlags _ _).withPc _
+  have hs3 := step_at_jz (env := c.env) (s := (setFlags s1 (some (c.cnt == 0)) (some false)).setPc (sh.pre1.length + 1))
+    (b := c.cnt == 0) sh.asm1 (by simp [State.setPc, Shape.len1]) rfl
   by_cases hz : c.cnt = 0
   · -- early exit: JZ taken, label, RET
-    have hzf : ((s1.setZf (c.cnt == 0)).setPc (sh.pre1.length + 1)).zf = true := by
-      show (c.cnt == 0) = true
-      simp [hz]
-    rw [hzf, if_pos rfl, jump_eq (findEnd hk)] at hs3
-    have hs4 := step_at_plain (env := c.env) (s := ((s1.setZf (c.cnt == 0)).setPc (sh.pre1.length + 1)).setPc sh.A8.length)
+    have hzf : (c.cnt == 0) = true := by simp [hz]
+    rw [if_pos hzf, jump_eq (findEnd hk)] at hs3
+    have hs4 := step_at_plain (env := c.env) (s := ((setFlags s1 (some (c.cnt == 0)) (some false)).setPc (sh.pre1.length + 1)).setPc sh.A8.length)
       sh.asm8 rfl rfl rfl
     have hs5 := step_at_ret (env := c.env)
-      (s := (((s1.setZf (c.cnt == 0)).setPc (sh.pre1.length + 1)).setPc sh.A8.length).setPc (sh.A8.length + 1))
+      (s := (((setFlags s1 (some (c.cnt == 0)) (some false)).setPc (sh.pre1.length + 1)).setPc sh.A8.length).setPc (sh.A8.length + 1))
       sh.asm9 (by simp [State.setPc, Shape.len9])
     have hex := exec_halt (run_trans (run_trans (run_trans hrun1 (run_one hs2)) (run_one hs3)) (run_one hs4)) hs5
     have hsteps : stepsOf sh c.cnt = sh.pre1.length + 1 + 1 + 1 + 1 := by simp [stepsOf, hz]
@@ -267,12 +262,10 @@ theorem checked_sound {c : Ctx} {sh : Shape} {σ1 σ0 H σb : SymState} (hc : Co
     rw [hk.s1st] at this
     exact this
   · -- second prologue part
-    have hzf : ((s1.setZf (c.cnt == 0)).setPc (sh.pre1.length + 1)).zf = false := by
-      show (c.cnt == 0) = false
-      simp [hz]
-    rw [hzf, if_neg (by simp)] at hs3
+    have hzf : (c.cnt == 0) = false := by simp [hz]
+    rw [if_neg (by rw [hzf]; simp)] at hs3
     obtain ⟨s4, hrun4, hpc4, hsim4⟩ := symRun_sound hc (it := 0) (loop := false) (by simp) sh.pre2 sh.A2 _ σ1 σ0
-      (((s1.setZf (c.cnt == 0)).setPc (sh.pre1.length + 1)).setPc (sh.A1.length + 1)) sh.asm2
+      (((setFlags s1 (some (c.cnt == 0)) (some false)).setPc (sh.pre1.length + 1)).setPc (sh.A1.length + 1)) sh.asm2
       (by simp [State.setPc, Shape.len2]) (hsim2.withPc _) hk.run2
     rw [← sh.len3] at hpc4
     have hsimH := initOK_sound hk.init hk.clampG hk.clampV hk.hst hk.s0st hsim4
